@@ -609,7 +609,7 @@ def gen_paths(tier, rng):
     for _ in range(250 if tier == "quick" else 5000):
         p = b"/" + b"/".join(rng.choice(parts) for _ in range(rng.randrange(1, 5)))
         if rng.random() < 0.3:
-            p = p[:-1] + rng.choice([b".ts", b".m3u8", b"-1-2.ts", b"-.m3u8"])
+            p = (p[:-1] if len(p) > 1 else p) + rng.choice([b".ts", b".m3u8", b"-1-2.ts", b"-.m3u8"])
         yield Case("c14.hlsserve %s %s" % (H(p), H(encode_uri(p, rng))), cls="hlsserve-random")
         yield Case("c14.reqinfo %s %s %s" % (H(rng.choice(ROOTS)), H(p), H(encode_uri(p, rng))), cls="reqinfo-random")
     # real hls.Muxer / logic.Group on a temp-dir sandbox (names with at most four "..")
@@ -687,10 +687,6 @@ def nontrivial(c, out):
     return "%s|%s|%s" % (c.line.split(" ")[0], c.cls, out[:80])
 
 
-def unsafe_name(name):
-    return name == b".." or b"/" in name
-
-
 def oracle(c, out):
     f = c.line.split(" ")
     op = f[0]
@@ -708,10 +704,12 @@ def oracle(c, out):
         flags, key, ovr, kind = int(f[1]), tok_bytes(f[2]), tok_bytes(f[3]), int(f[4])
         exp = simple_expected_admit(flags, key, ovr, 1, b"FLV" if kind == 0 else b"TS", tok_bytes(f[5]), tok_bytes(f[6]))
         o = out.split(" ")
-        if len(o) != 3:
+        if len(o) != 5:
             return (False, "unexpected output " + out)
+        if o[3] == "1" and o[4] != "1":
+            return (False, "a kicked session is not disconnected: " + out)
         if exp:
-            return (o == ["0x0", "0x1", "1"], "an authorised subscriber is not admitted / listed / answered: " + out)
+            return (o == ["0x0", "0x1", "1", "1", "1"], "an authorised subscriber is not admitted / listed / answered / kickable: " + out)
         return (o[0] != "0x0" and o[1] == "0x0" and o[2] == "0",
                 "a subscriber that must be rejected is admitted, listed by the stat API or receives bytes: " + out)
     if op == "c14.secret":
@@ -775,22 +773,7 @@ def oracle(c, out):
 
 
 def classify_finding(c, out):
-    """known finding class stream_name_escapes_root: the failing case is a stream name that is '..' or contains '/'"""
-    f = c.line.split(" ")
-    op = f[0]
-    if op == "c14.muxpaths" and unsafe_name(tok_bytes(f[2])):
-        return "F-18-write"
-    if op in ("c14.hlsmux", "c14.record") and unsafe_name(tok_bytes(f[1])):
-        return "F-18-write"
-    if op == "c14.reqinfo":
-        o = out.split(" ")
-        if len(o) == 5 and tok_bytes(o[3]) == b"..":
-            return "F-18-serve"
-    if op == "c14.hlsserve":
-        p = tok_bytes(f[1])
-        last = p.rsplit(b"/", 1)[-1]
-        if last.startswith(b"..") or b"/../" in p:
-            return "F-18-serve"
+    """no open known finding: F-17, F-17b, F-18 and F-19 are fixed in lal, so every oracle failure is a violation"""
     return None
 
 
